@@ -192,6 +192,15 @@ func TestVerifC17(t *testing.T) {
 				r.Sample(map[string]any{"scenario": sc, "script": a.Choices(), "observed": fmt.Sprintf("%+v", obs)})
 			}
 			first = false
+			// the space grows by more than two orders of magnitude per unit of the bound for
+			// the long tick sequences: they are explored to bound 1
+			maxBound := maxBound
+			if n >= 6 {
+				maxBound = 1
+				if strat == "backoff" {
+					maxBound = 0 // 2 * 10^3 executions without preemption, > 10^8 with one
+				}
+			}
 			for bound := 0; bound <= maxBound; bound++ {
 				if bound < maxBound && shard != 0 {
 					continue // lower bounds are subsumed; run once for the iteration report
@@ -201,6 +210,8 @@ func TestVerifC17(t *testing.T) {
 				if bound < maxBound {
 					// iterated bounds: counted by shard 0 only, as a report
 					r.Set(fmt.Sprintf("%s.%d.bound%d_execs", strat, n, bound), st.Execs)
+				} else {
+					r.Add(fmt.Sprintf("%s.%d.bound%d_execs", strat, n, bound), st.Execs)
 				}
 				if st.Stopped {
 					r.Cap(fmt.Sprintf("%s/%d bound %d not completed", strat, n, bound))
